@@ -44,7 +44,7 @@ func checkC14(cx *Ctx, r *Report) {
 			continue
 		}
 		uses := false
-		for _, c := range callsIn(throughDelegation(f)) {
+		for _, c := range callsIn(decodeWorker(w, throughDelegation(f))) {
 			if cal := calleeOf(c); cal != nil && w.FuncKey(cal) == "xml.InflateAndDecode" {
 				uses = true
 			}
